@@ -3,7 +3,7 @@
    i-th probe; the theorems quantify over EVERY clock, i.e. over expiry at any
    probe, before the start, or never. *)
 From Similar Require Import Model.Base Model.Utils Model.Myers Model.Lcs Model.Hooks Model.Capture
-  Spec.Script Spec.SnakeSpec Proofs.Lcs Proofs.Main Proofs.WorldInv Proofs.MyersSnake Proofs.NeverExpire.
+  Spec.Script Spec.SnakeSpec Proofs.Lcs Proofs.Main Proofs.WorldInv Proofs.MyersSnake Proofs.NeverExpire Proofs.PostExpiry.
 From Similar Require Import Model.TextDiff.
 
 Theorem c07_myers_valid_any_clock :
@@ -59,7 +59,7 @@ Example c07_instance :
 Proof. vm_compute. split; reflexivity. Qed.
 
 (* ---------------------------------------------------------------------- *)
-(* "A deadline that never expires gives exactly the result of no deadline" *)
+(* a deadline that never expires gives exactly the result of no deadline   *)
 (* ---------------------------------------------------------------------- *)
 (* generic: two hook/clock worlds that answer alike make every algorithm run
    alike (equal Ok / Panic / OutOfFuel outcomes, related final states) *)
@@ -114,3 +114,41 @@ Theorem c07_none_no_probe :
     raw_trace alg None dbg orc os oe ns ne = Ok (calls, c) -> probes c = 0.
 Proof. exact raw_none_no_probe. Qed.
 Print Assumptions c07_none_no_probe.
+
+(* ---------------------------------------------------------------------- *)
+(* after expiry only a small constant multiple of N+M further element      *)
+(* comparisons are made (Proofs/PostExpiry.v).  post_cmps counts the       *)
+(* comparisons made after the first probe that answered true.  The clock   *)
+(* must be monotone (time does not go back); the harness clock is.         *)
+(* ---------------------------------------------------------------------- *)
+Theorem c07_post_expiry_bound :
+  forall (alg : algorithm) (dl : deadline) (dbg : bool) (orc : oracles) (os oe ns ne : nat)
+         (calls : list call) (c : ctr),
+    DlMono dl -> os <= oe -> ns <= ne -> CmpTotal (o_on orc) os oe ns ne ->
+    raw_trace alg dl dbg orc os oe ns ne = Ok (calls, c) ->
+    post_cmps c <= post_bound alg (oe - os) (ne - ns).
+Proof. exact post_expiry_bound_dl. Qed.
+Print Assumptions c07_post_expiry_bound.
+
+(* the bounds: Myers N+M, LCS 0, Patience 2(N+M)+1 *)
+Theorem c07_post_bound_values :
+  forall n m : nat,
+    post_bound Myers n m = n + m /\ post_bound Lcs n m = 0 /\ post_bound Patience n m = 2 * (n + m) + 1.
+Proof. intros n m. repeat split. Qed.
+Print Assumptions c07_post_bound_values.
+
+Theorem c07_post_expiry_bound_any_alg :
+  forall (alg : algorithm) (clk : nat -> bool) (dbg : bool) (orc : oracles) (os oe ns ne : nat)
+         (calls : list call) (c : ctr),
+    (forall i j : nat, i <= j -> clk i = true -> clk j = true) ->
+    os <= oe -> ns <= ne -> CmpTotal (o_on orc) os oe ns ne ->
+    raw_trace alg (Some clk) dbg orc os oe ns ne = Ok (calls, c) ->
+    post_cmps c <= 2 * (oe - os + (ne - ns)) + 1.
+Proof. exact post_expiry_bound. Qed.
+Print Assumptions c07_post_expiry_bound_any_alg.
+
+(* the virtual clock of the harness (expires at probe k and stays expired) is monotone *)
+Theorem c07_clock_at_mono :
+  forall k i j : nat, i <= j -> clock_at k i = true -> clock_at k j = true.
+Proof. exact clock_at_mono. Qed.
+Print Assumptions c07_clock_at_mono.
